@@ -11,6 +11,11 @@
 //!                            [6]            GuestMemoryMmap::new()              (1 map slot)
 //!                            [7,f,base,size] GuestRegionMmap::from_range(base, size, file f)  (1 region slot)
 //!                            [9,s,l,f,...]  from_ranges_with_files([(s,l,file f)])  (k region slots, 1 map slot)
+//!                            [10,m]         drop(maps[m])  (the slot is dead afterwards; code 8 if it was already)
+//!                            [11,k]         drop the k-th handle returned by a successful remove_region (no-op if absent)
+//!        Objects are kept alive until such an operation destroys them; after EVERY step (also after a drop) all
+//!        SURVIVING maps / handles are re-read: layout and tagged byte contents, through the map, the handle and the raw
+//!        host pointer.
 //!        file f: 0 none, 1 a memfd of `size` bytes mapped from offset 0, 2 a memfd of 65536+size bytes mapped
 //!        from offset 65536 (sizes above 16 MiB: no file).  Opcode 0 is the spelled-out route (MmapRegion::new resp.
 //!        MmapRegion::from_range(MmapRange::new_unix) followed by GuestRegionMmap::new); 2 is from_ranges.
@@ -52,7 +57,7 @@ struct MapSlot {
 struct World {
     pool: Vec<Option<Slot>>,
     maps: Vec<Option<MapSlot>>,
-    removed: Vec<(Arc<R>, usize)>,
+    removed: Vec<Option<(Arc<R>, usize)>>,
     step: u64,
 }
 
@@ -179,7 +184,7 @@ impl World {
                 return false;
             }
         }
-        for (a, id) in &self.removed {
+        for (a, id) in self.removed.iter().flatten() {
             match self.pool.get(*id).and_then(|x| x.as_ref()) {
                 Some(s) => {
                     if Arc::as_ptr(a) != s.ptr || a.start_addr().0 != s.start || a.len() != s.len {
@@ -349,7 +354,7 @@ fn exec(case: &[Tok]) -> Vec<Tok> {
                             let id = w.slot_of(Arc::as_ptr(&arc));
                             let mut t = vec![id as u128, arc.start_addr().0 as u128, arc.len() as u128];
                             t.extend(w.triples(&nm));
-                            w.removed.push((arc, id as usize));
+                            w.removed.push(Some((arc, id as usize)));
                             let good = w.adopt(nm);
                             (0, t, good)
                         }
@@ -381,6 +386,28 @@ fn exec(case: &[Tok]) -> Vec<Tok> {
                     },
                     None => (8, vec![], true),
                 }
+            }
+            10 => {
+                assert!(a.len() == 2);
+                match w.maps.get_mut(a[1] as usize) {
+                    Some(slot) if slot.is_some() => {
+                        let gone = slot.take();
+                        let done = util::catch(move || drop(gone));
+                        (if done.is_some() { 0 } else { 9 }, vec![], true)
+                    }
+                    _ => (8, vec![], true),
+                }
+            }
+            11 => {
+                assert!(a.len() == 2);
+                if let Some(slot) = w.removed.get_mut(a[1] as usize) {
+                    let gone = slot.take();
+                    if util::catch(move || drop(gone)).is_none() {
+                        out.push(Tok::L(vec![9, 1]));
+                        continue;
+                    }
+                }
+                (0, vec![], true)
             }
             6 => {
                 assert!(a.len() == 1);
@@ -528,6 +555,15 @@ impl G {
         self.op(vec![6]);
         self.maps.push(Some(vec![]));
     }
+    fn drop_map(&mut self, m: usize) {
+        self.op(vec![10, m as u64]);
+        if let Some(x) = self.maps.get_mut(m) {
+            *x = None;
+        }
+    }
+    fn drop_removed(&mut self, k: u64) {
+        self.op(vec![11, k]);
+    }
     fn live_maps(&self) -> Vec<usize> {
         (0..self.maps.len()).filter(|i| self.maps[*i].is_some()).collect()
     }
@@ -609,7 +645,43 @@ fn history(rng: &mut Rng, maxops: usize) -> G {
         let live = g.live_maps();
         let cur = if rng.chance(1, 6) { *rng.pick(&live) } else { *live.last().unwrap() };
         let t = if both { rng.bool() } else { top };
-        match rng.below(20) {
+        match rng.below(24) {
+            20 | 21 => {
+                // destroy a map: the newest one (what was just derived), an older one (what it was derived from), or a
+                // dead / absent slot; at least one live map stays
+                if live.len() > 1 {
+                    let m = match rng.below(5) {
+                        0 | 1 => *live.last().unwrap(),
+                        2 => live[0],
+                        3 => *rng.pick(&live),
+                        _ => rng.below(g.maps.len() as u64 + 2) as usize,
+                    };
+                    if !(live.len() == 2 && g.maps.get(m).map_or(false, |x| x.is_some()) && rng.chance(1, 2)) {
+                        g.drop_map(m);
+                    }
+                } else {
+                    g.drop_map(g.maps.len() + 1);
+                }
+            }
+            22 => {
+                let k = rng.below(4);
+                g.drop_removed(k);
+            }
+            23 => {
+                // derive and destroy at once: insert / remove, then drop the NEW map, then look through the old one
+                let ids = g.maps[cur].clone().unwrap();
+                if ids.is_empty() || rng.bool() {
+                    let (s, l) = candidate(rng, &g, cur, t);
+                    let r = g.new_region(s, l);
+                    g.insert(cur, r);
+                } else {
+                    let (s, l) = g.pool[*rng.pick(&ids)].unwrap();
+                    g.remove(cur, s, l);
+                }
+                let newest = g.maps.len() - 1;
+                g.drop_map(newest);
+                g.find(cur, u_addr(rng, t));
+            }
             0..=7 => {
                 let (s, l) = candidate(rng, &g, cur, t);
                 let r = g.new_region(s, l);
@@ -819,6 +891,46 @@ fn gen(rng: &mut Rng, tier: Tier, emit: &mut dyn FnMut(Vec<Tok>)) {
             g.find(0, a);
         }
         g.emit(emit);
+    }
+    // (c2) objects going away: derive a map by insertion / removal, destroy the derived map (resp. the one it was derived
+    //      from, resp. the removed handle), then use the survivor; every constructor route, byte- and page-sized regions
+    for f in 0..4u64 {
+        for (b0, l) in [(0u64, 3u64), (0x10000, 4096), (TOP, 2)] {
+            for which in 0..4u64 {
+                let mut g = G::new();
+                let mk = |g: &mut G, s: u64, l: u64| -> usize {
+                    if f == 3 {
+                        g.op(vec![0, s, l]);
+                        g.pool.push(Some((s, l)));
+                        g.pool.len() - 1
+                    } else {
+                        g.new_region_via(f, s, l)
+                    }
+                };
+                let r0 = mk(&mut g, b0, l);
+                let r1 = mk(&mut g, b0 + 2 * l, l);
+                g.from_arc(&[r0, r1]); // map 0
+                let r2 = mk(&mut g, b0 + l, l);
+                g.insert(0, r2); // map 1 = map 0 + r2
+                g.remove(1, b0, l); // map 2 = map 1 - r0, removed handle 0
+                match which {
+                    0 => g.drop_map(2),
+                    1 => g.drop_map(1),
+                    2 => g.drop_map(0),
+                    _ => g.drop_removed(0),
+                }
+                for m in 0..3usize {
+                    g.find(m, b0 + l);
+                    g.find(m, b0);
+                }
+                if which == 0 {
+                    g.drop_map(1);
+                    g.find(0, b0 + 2 * l);
+                    g.drop_map(1);
+                }
+                g.emit(emit);
+            }
+        }
     }
     // (d) random histories of <= 25 operations over U
     let nh = if tier == Tier::Quick { 3000 } else { 200_000 };
